@@ -32,6 +32,7 @@ class Screen:
         self.replies = []             # characters the terminal sends back (cursor position reports)
         self.written = []             # (row, col) of every cell written or erased since `mark()`
         self.eight_bit = False
+        self.report = None            # scripted (row, column) to report instead of the cursor's (1-based, as sent)
 
     # -- helpers for the rules -----------------------------------------------------------
     def mark(self):
@@ -176,7 +177,8 @@ class Screen:
             else:
                 raise AnalysisError("terminal model: ED mode %d" % mode)
         elif final == "n" and nums == [6]:
-            self.replies.extend(("\x9b" if self.eight_bit else "\x1b[") + "%d;%dR" % (self.r + 1, self.c + 1))
+            pos = self.report if self.report is not None else (self.r + 1, self.c + 1)
+            self.replies.extend(("\x9b" if self.eight_bit else "\x1b[") + "%d;%dR" % pos)
         elif final in "AB":
             n = nums[0] if nums and nums[0] else 1
             self.r = min(self.height - 1, max(0, self.r + (n if final == "B" else -n)))
